@@ -48,6 +48,14 @@ SCENARIOS = {
         "poolOf": ["pa", "pa", "pa", "pa", "pb", "pb"], "kindOf": ["under"] * 6, "initPhase": ["init"] * 6,
         "t0": 100, "maxT": 700, "marks": [200, 400], "day": 0,
     },
+    # a static pool (replicas 3) whose nodes drifted: static drift starts several single-node commands per round
+    "S5": {
+        "pools": {"ps": [bd("count", 2, ("Drifted",)), bd("pct", 100)], "pa": [bd("pct", 50)]},
+        "replicas": {"ps": 3},
+        "poolOf": ["ps", "ps", "ps", "pa", "pa"], "kindOf": ["sdrifted", "sdrifted", "sdrifted", "empty", "drifted"],
+        "initPhase": ["init"] * 5,
+        "t0": 100, "maxT": 700, "marks": [200, 400], "day": 0,
+    },
 }
 
 
@@ -112,8 +120,8 @@ def write_scenario_module(run, name, sc, env_all, max_len, max_rounds, variant="
 
 
 def driver_scenario(sc):
-    return {"pools": sc["pools"], "poolOf": sc["poolOf"], "kindOf": sc["kindOf"], "initPhase": sc["initPhase"],
-            "t0": sc["t0"], "day": sc["day"]}
+    return {"pools": sc["pools"], "replicas": sc.get("replicas", {}), "poolOf": sc["poolOf"], "kindOf": sc["kindOf"],
+            "initPhase": sc["initPhase"], "t0": sc["t0"], "day": sc["day"]}
 
 
 def simulate(run, name, sc, num, depth, env_all, max_rounds=6):
